@@ -236,8 +236,17 @@ def judge(impl, model):
     return None
 
 
+AFTERMATH_PROGRAM = ("Struct Sn\n    a: number\nEnd\n\nTask productionTask\n    Sv\n        Out\n            d: Sn\n"
+                     "    Condition\n        d.a > 1\n    Passed\n        Sw\nEnd\n")
+
+
 def judge_impl_only(impl):
-    """texts beyond the model (deep nesting): a verdict without raising, valid <-> nothing printed"""
+    """texts beyond the model (deep nesting): a verdict without raising, valid <-> nothing printed;
+    and the validation of the NEXT program in the same process is not disturbed by it"""
+    after = run_impl(AFTERMATH_PROGRAM)
+    if after["exc"] is not None or after["valid"] is not True or after["printed"]:
+        return ("after this text a plain valid program is no longer validated correctly in the same process: "
+                "valid=%s exc=%s output %r" % (after["valid"], after["exc"], after["out"][:200]))
     if impl["exc"] is not None:
         return "parse_string raised %s on a deeply nested text instead of returning a verdict" % impl["exc"]
     if impl["valid"] not in (True, False):
@@ -252,7 +261,7 @@ def judge_impl_only(impl):
 def deep_texts():
     """[(class, text)]: nesting far beyond what the interpreter's recursion limit allows"""
     out = []
-    for n in (250, 400, 1000):
+    for n in (250, 400, 1000, 3000):
         out.append(("deep_not", "Task productionTask\n    Loop While " + "!" * n + "true\n        Move\nEnd\n"))
         out.append(("deep_paren", "Task productionTask\n    Loop While " + "(" * n + "true" + ")" * n
                     + "\n        Move\nEnd\n"))
